@@ -1,7 +1,647 @@
-//! Generator families for the elementary functions (C12-C18) and text (C20).
-use crate::mach::M;
-use crate::rng::Rng;
+//! Generator families for the elementary functions (C12-C18).
+use crate::gen::{load_valid, SP_TT};
+use crate::gen2::consts;
+use crate::mach::{A, M};
+use crate::rng::*;
 
-pub fn run(_m: &mut M, _r: &mut Rng, _family: &str, _n: u64) -> bool {
-    false
+const SP2: [&str; 2] = ["inh", "Float"];
+
+fn sgn(r: &mut Rng) -> f64 {
+    if r.coin() {
+        1.0
+    } else {
+        -1.0
+    }
+}
+
+/// load the double-double nearest to `hi` with a random admissible low word
+fn load_near(m: &mut M, r: &mut Rng, d: usize, hi: f64) {
+    loop {
+        let lo = match r.below(4) {
+            0 => 0.0,
+            _ => lo_candidate(r, hi),
+        };
+        if m.load(d, hi, lo) {
+            return;
+        }
+    }
+}
+
+/// load hi + delta exactly (delta small), through the error-free constructor
+fn load_sum(m: &mut M, d: usize, hi: f64, delta: f64) {
+    m.call("arith", "new_add", "inh", Some(d), &[A::F(hi), A::F(delta)]);
+}
+
+fn log_uniform(r: &mut Rng, emin: i32, emax: i32) -> f64 {
+    let e = r.range(emin as i64, emax as i64 - 1) as i32;
+    f64::from_bits((((e + 1023) as u64) << 52) | (r.next() & ((1u64 << 52) - 1)))
+}
+
+// ------------------------------------------------------------------------------------ C13
+pub fn roots(m: &mut M, r: &mut Rng, n: u64) {
+    for i in 0..n {
+        m.group("roots");
+        // sqrt / cbrt
+        match r.below(8) {
+            0 => {
+                // perfect squares / cubes +- one ulp of the low word
+                let k = (r.below(1 << 26) + 1) as f64;
+                let p = if r.coin() { k * k } else { k * k * k };
+                let e = pow2(2 * (r.range(-100, 100) as i32) * 3);
+                load_sum(m, 0, p * e, *r.pick(&[0.0, 1.0, -1.0]) * p * e * pow2(-105));
+            }
+            1 => {
+                let z = if r.coin() { 0.0 } else { -0.0 };
+                m.load(0, z, if r.coin() { 0.0 } else { -0.0 });
+            }
+            2 => {
+                let h = pow2(r.range(-899, 899) as i32);
+                load_near(m, r, 0, h);
+            }
+            _ => load_valid(m, r, 0, -899, 899),
+        }
+        // positive copy for sqrt
+        m.call("base", "abs", "inh", Some(1), &[A::R(0)]);
+        m.call("elem", "sqrt", *r.pick(&SP2), Some(2), &[A::R(1)]);
+        m.call("elem", "cbrt", *r.pick(&SP2), Some(3), &[A::R(0)]);
+        m.call("elem", "cbrt", "inh", Some(3), &[A::R(1)]);
+        if i % 6 == 0 {
+            m.call("elem", "sqrt", "inh", Some(2), &[A::R(0)]); // possibly negative
+        }
+        // hypot
+        let e = r.range(-399, 398) as i32;
+        load_valid(m, r, 4, e, e + 1);
+        match r.below(4) {
+            0 => {
+                let x = m.tf(4);
+                m.load(5, x.hi(), x.lo());
+            }
+            1 => load_valid(m, r, 5, (e - 120).max(-399), (e - 50).max(-398)),
+            _ => load_valid(m, r, 5, (e - 3).max(-399), (e + 3).min(399)),
+        }
+        m.call("elem", "hypot", *r.pick(&SP2), Some(6), &[A::R(4), A::R(5)]);
+        m.call("elem", "hypot", "inh", Some(6), &[A::R(5), A::R(4)]);
+    }
+}
+
+pub fn powi(m: &mut M, r: &mut Rng, n: u64) {
+    for i in 0..n {
+        m.group("powi");
+        // exponent: log-uniform in |n| with the extremes always present
+        let k: i64 = match i % 12 {
+            0 => i32::MIN as i64,
+            1 => i32::MAX as i64,
+            2 => 0,
+            3 => 1,
+            4 => -1,
+            5 => 2,
+            _ => {
+                let b = r.range(1, 31);
+                let v = (r.next() % (1u64 << b)) as i64 + 1;
+                (if r.coin() { v } else { -v }).clamp(i32::MIN as i64, i32::MAX as i64)
+            }
+        };
+        let ka = k.unsigned_abs().max(1);
+        // base chosen so that x^n stays in range: |log2 x| * |n| < 850
+        let span = (850.0 / ka as f64).min(30.0);
+        if span >= 1.0 {
+            let e = r.range(-(span as i64), span as i64) as i32;
+            load_valid(m, r, 0, e, e + 1);
+        } else {
+            // x = 1 +- t with t ~ span * ln2 (so that |n| * log2 x is below 850)
+            let t = span * 0.69 * (r.below(1000) as f64 / 1000.0);
+            let hi = 1.0 + sgn(r) * t;
+            load_near(m, r, 0, hi);
+        }
+        if i % 9 == 0 {
+            let z = if r.coin() { 0.0 } else { -0.0 };
+            m.load(0, z, 0.0);
+        }
+        if r.coin() {
+            m.call("arith", "neg", "v", Some(0), &[A::R(0)]);
+        }
+        let arg = A::I(k < 0, k.unsigned_abs() as u128, "i32");
+        m.call("pow", "powi", *r.pick(&["inh", "Float", "FloatCore", "Pow_i32_vv", "Pow_i32_rr"]), Some(1), &[A::R(0), arg.clone()]);
+        if k > 0 && k <= i32::MAX as i64 {
+            // powi(x, -n) == powi(x, n).recip()
+            m.call("arith", "recip", "inh", Some(2), &[A::R(1)]);
+            m.call("pow", "powi", "inh", Some(3), &[A::R(0), A::I(true, k as u128, "i32")]);
+        }
+    }
+}
+
+// ------------------------------------------------------------------------------------ C14
+fn exp_arg(m: &mut M, r: &mut Rng, d: usize) {
+    match r.below(12) {
+        0..=4 => {
+            // x = y/2 + n/128 + delta : every table entry, both sides of the reduction boundaries
+            let y = r.range(-1400, 1416) as f64;
+            let nn = r.range(-32, 32) as f64;
+            let base = y / 2.0 + nn / 128.0;
+            let delta = match r.below(6) {
+                0 => 0.0,
+                1 => sgn(r) * pow2(-(r.range(40, 80) as i32)),
+                2 => sgn(r) * (1.0 / 256.0 - pow2(-(r.range(30, 60) as i32))),
+                3 => sgn(r) * (r.below(1 << 20) as f64) * pow2(-28),
+                _ => sgn(r) * pow2(-(r.range(9, 30) as i32)) * (1.0 + r.below(16) as f64 / 16.0),
+            };
+            load_sum(m, d, base, delta);
+        }
+        5 => {
+            // odd quarters with a low word pointing away from the rounded half-integer
+            let q = (2 * r.range(-2800, 2800) + 1) as f64 / 4.0;
+            let ulp = if q == 0.0 { 0.0 } else { pow2(exponent(q) - 52) };
+            let lo = sgn(r) * ulp * *r.pick(&[0.375, 0.25, 0.125, 0.4990234375, 1e-10]);
+            load_sum(m, d, q, lo);
+        }
+        6 => {
+            // range switches
+            let b = *r.pick(&[-709.0, 709.0, -750.0, 710.0, -600.0, 700.0, -708.5, 708.5]);
+            load_sum(m, d, b, sgn(r) * pow2(-(r.range(1, 60) as i32)) * r.below(3) as f64);
+        }
+        7 => {
+            let e = r.range(-1000, -1) as i32;
+            let h = sgn(r) * log_uniform(r, e, e + 1);
+            load_near(m, r, d, h);
+        }
+        8 => {
+            let z = if r.coin() { 0.0 } else { -0.0 };
+            m.load(d, z, 0.0);
+        }
+        _ => {
+            let h = sgn(r) * log_uniform(r, -10, 10).min(740.0);
+            load_near(m, r, d, h);
+        }
+    }
+}
+
+pub fn exps(m: &mut M, r: &mut Rng, n: u64) {
+    for i in 0..n {
+        m.group("exp");
+        exp_arg(m, r, 0);
+        m.call("elem", "exp", *r.pick(&SP2), Some(1), &[A::R(0)]);
+        match i % 3 {
+            0 => {
+                // exp_m1: both sides of -ln 2, ln 1.5, +-2^-8, -0.70, 0.41, tiny
+                match r.below(6) {
+                    0 => {
+                        let b = *r.pick(&[-0.6931471805599453, 0.4054651081081644, 0.00390625, -0.00390625, -0.70, 0.41, 0.75]);
+                        load_sum(m, 2, b, sgn(r) * pow2(-(r.range(20, 70) as i32)) * r.below(3) as f64);
+                    }
+                    1 => {
+                        let e = r.range(-1000, -8) as i32;
+                        let h = sgn(r) * log_uniform(r, e, e + 1);
+                        load_near(m, r, 2, h);
+                    }
+                    2 => {
+                        let h = sgn(r) * log_uniform(r, -8, 0);
+                        load_near(m, r, 2, h);
+                    }
+                    3 => exp_arg(m, r, 2),
+                    _ => {
+                        let h = sgn(r) * log_uniform(r, -3, 9).min(699.0);
+                        load_near(m, r, 2, h);
+                    }
+                }
+                m.call("elem", "exp_m1", *r.pick(&SP2), Some(3), &[A::R(2)]);
+            }
+            1 => {
+                // exp2: integers, half-integers, range switches, random
+                match r.below(6) {
+                    0 => {
+                        let k = r.range(-1080, 1030) as f64;
+                        m.load(2, k, 0.0);
+                    }
+                    1 => {
+                        let k = r.range(-1075, 1023) as f64 + 0.5;
+                        load_sum(m, 2, k, sgn(r) * pow2(-(r.range(30, 60) as i32)) * r.below(2) as f64);
+                    }
+                    2 => {
+                        let b = *r.pick(&[-1074.0, 1023.0, -1080.0, 1024.0, -900.0, 1000.0, 0.0, -1022.0, 1022.0]);
+                        load_sum(m, 2, b, sgn(r) * pow2(-(r.range(1, 50) as i32)) * r.below(3) as f64);
+                    }
+                    3 => {
+                        let e = r.range(-200, -1) as i32;
+                        let h = sgn(r) * log_uniform(r, e, e + 1);
+                        load_near(m, r, 2, h);
+                    }
+                    _ => {
+                        let h = (sgn(r) * log_uniform(r, -2, 10)).clamp(-899.0, 999.0);
+                        load_near(m, r, 2, h);
+                    }
+                }
+                m.call("elem", "exp2", *r.pick(&SP2), Some(3), &[A::R(2)]);
+            }
+            _ => {
+                powf_case(m, r);
+            }
+        }
+    }
+}
+
+fn powf_case(m: &mut M, r: &mut Rng) {
+    // base x into r2, exponent y into r3, hint ln|x| into r4
+    match r.below(8) {
+        0 => {
+            let z = if r.coin() { 0.0 } else { -0.0 };
+            m.load(2, z, 0.0);
+        }
+        1 | 2 => {
+            let h = -log_uniform(r, -30, 30);
+            load_near(m, r, 2, h);
+        }
+        _ => {
+            let h = log_uniform(r, -30, 30);
+            load_near(m, r, 2, h);
+        }
+    }
+    match r.below(8) {
+        0 => {
+            m.load(3, 0.0, 0.0);
+        }
+        1 | 2 => {
+            let k = r.range(-10, 10) as f64;
+            m.load(3, k, 0.0);
+        }
+        3 => {
+            // integer-valued with a non-zero low word is impossible below 2^53; use half-integers instead
+            let k = r.range(-10, 9) as f64 + 0.5;
+            m.load(3, k, 0.0);
+        }
+        4 => {
+            // large integer exponents with the parity in the low word: outside the accuracy range, sign/validity only
+            let hi = pow2(r.range(54, 60) as i32);
+            let lo = (2 * r.range(-3, 3) + r.range(0, 1)) as f64;
+            m.load(3, hi, lo);
+        }
+        _ => {
+            let h = sgn(r) * log_uniform(r, -6, 4).min(10.0);
+            load_near(m, r, 3, h);
+        }
+    }
+    m.call("base", "abs", "inh", Some(5), &[A::R(2)]);
+    m.call("elem", "ln", "inh", Some(4), &[A::R(5)]);
+    let y = m.tf(3);
+    if y.lo() == 0.0 && r.below(3) == 0 {
+        m.call("elem", "powf", *r.pick(&["Pow_f64_vv", "Pow_f64_rr"]), Some(6), &[A::R(2), A::F(y.hi()), A::R(4)]);
+    }
+    m.call("elem", "powf", *r.pick(&["inh", "Float", "Pow_vv", "Pow_rr"]), Some(6), &[A::R(2), A::R(3), A::R(4)]);
+}
+
+// ------------------------------------------------------------------------------------ C15
+pub fn logs(m: &mut M, r: &mut Rng, n: u64) {
+    for i in 0..n {
+        m.group("log");
+        match r.below(10) {
+            0 | 1 => {
+                // dense around 1: 1 +- 2^-j, including values whose high word is 1
+                let j = r.range(1, 105) as i32;
+                load_sum(m, 0, 1.0, sgn(r) * pow2(-j) * (1.0 + r.below(8) as f64 / 8.0));
+            }
+            2 => {
+                let k = r.range(-1000, 959) as i32;
+                m.load(0, pow2(k), 0.0);
+            }
+            3 => {
+                // arguments whose logarithm is close to a half-integer: exp(k/2) rounded
+                let k = r.range(-1300, 1300) as f64 / 2.0;
+                let h = k.exp();
+                if h.is_finite() && h > 1e-300 {
+                    load_near(m, r, 0, h);
+                } else {
+                    m.load(0, 2.0, 0.0);
+                }
+            }
+            4 => {
+                let b = *r.pick(&[0.0, -0.0, -1.0, -2.5]);
+                m.load(0, b, 0.0);
+            }
+            5 => {
+                m.load(0, *r.pick(&[1.0, 2.0, 10.0, 100.0, 0.5, 8.0]), 0.0);
+            }
+            _ => {
+                let h = log_uniform(r, -1000, 960);
+                load_near(m, r, 0, h);
+            }
+        }
+        m.call("elem", "ln", *r.pick(&SP2), Some(1), &[A::R(0)]);
+        m.call("elem", "log2", *r.pick(&SP2), Some(2), &[A::R(0)]);
+        // log10(x) == ln(x) / LN_10
+        m.call("const", "const", "consts", Some(3), &[A::S("LN_10".into())]);
+        m.call("arith", "div", "vv", Some(4), &[A::R(1), A::R(3)]);
+        m.call("elem", "log10", *r.pick(&SP2), Some(5), &[A::R(0)]);
+        if i % 3 == 0 {
+            // log(x, b) == ln(x) / ln(b)
+            let hb = log_uniform(r, -20, 20);
+            load_near(m, r, 6, hb);
+            m.call("elem", "ln", "inh", Some(7), &[A::R(6)]);
+            m.call("arith", "div", "vv", Some(4), &[A::R(1), A::R(7)]);
+            m.call("elem", "log", *r.pick(&SP2), Some(5), &[A::R(0), A::R(6)]);
+        }
+        // ln_1p
+        match r.below(8) {
+            0 => {
+                let j = r.range(1, 100) as i32;
+                load_sum(m, 6, -1.0, pow2(-j) * (1.0 + r.below(8) as f64 / 8.0));
+            }
+            1 => {
+                let e = r.range(-1000, -8) as i32;
+                let h = sgn(r) * log_uniform(r, e, e + 1);
+                load_near(m, r, 6, h);
+            }
+            2 => {
+                let b = *r.pick(&[0.00390625, -0.00390625, 0.75, 0.0, -1.0, -1.5, 0.5]);
+                load_sum(m, 6, b, sgn(r) * pow2(-(r.range(20, 70) as i32)) * r.below(3) as f64);
+            }
+            3 => {
+                let h = log_uniform(r, 0, 960);
+                load_near(m, r, 6, h);
+            }
+            _ => {
+                let h = sgn(r) * log_uniform(r, -8, 0);
+                load_near(m, r, 6, h);
+            }
+        }
+        m.call("elem", "ln_1p", *r.pick(&SP2), Some(7), &[A::R(6)]);
+    }
+}
+
+// ------------------------------------------------------------------------------------ C16
+fn trig_arg(m: &mut M, r: &mut Rng, d: usize) {
+    match r.below(10) {
+        0..=2 => {
+            // both sides of multiples of pi/4 (the f64 product is within an ulp; add a few ulps of offset)
+            let k = match r.below(3) {
+                0 => r.range(-12, 12),
+                1 => r.range(-2000, 2000),
+                _ => r.range(-1330000, 1330000),
+            } as f64;
+            let h = k * std::f64::consts::FRAC_PI_4;
+            let u = if h == 0.0 { pow2(-60) } else { pow2(exponent(h) - 52) };
+            load_sum(m, d, h, (r.range(-3, 3) as f64) * u + sgn(r) * u * pow2(-(r.range(1, 50) as i32)));
+        }
+        3 => {
+            let e = r.range(-1000, -2) as i32;
+            let h = sgn(r) * log_uniform(r, e, e + 1);
+            load_near(m, r, d, h);
+        }
+        4 => {
+            let h = sgn(r) * log_uniform(r, 18, 20);
+            load_near(m, r, d, h);
+        }
+        5 => {
+            let z = if r.coin() { 0.0 } else { -0.0 };
+            m.load(d, z, 0.0);
+        }
+        6 => {
+            // quadrant by quadrant near small multiples
+            let q = r.range(-8, 8) as f64;
+            let h = q * std::f64::consts::FRAC_PI_2 + (r.below(1000) as f64 / 1000.0 - 0.5) * 1.5;
+            load_near(m, r, d, h);
+        }
+        _ => {
+            let h = sgn(r) * log_uniform(r, -3, 20);
+            load_near(m, r, d, h);
+        }
+    }
+}
+
+pub fn trig(m: &mut M, r: &mut Rng, n: u64) {
+    for i in 0..n {
+        m.group("trig");
+        trig_arg(m, r, 0);
+        m.call("elem", "sin", *r.pick(&SP2), Some(1), &[A::R(0)]);
+        m.call("elem", "cos", *r.pick(&SP2), Some(2), &[A::R(0)]);
+        m.call("elem", "sin_cos", *r.pick(&SP2), Some(3), &[A::R(0)]);
+        m.call("elem", "tan", *r.pick(&SP2), Some(4), &[A::R(0)]);
+        if i % 40 == 0 {
+            let (op1, a1, b1) = *r.pick(&[("new_add", f64::INFINITY, 1.0), ("new_add", f64::NAN, 1.0), ("new_mul", 1e300, 1e300)]);
+            m.call("arith", op1, "inh", Some(5), &[A::F(a1), A::F(b1)]);
+            for op in ["sin", "cos", "tan", "sin_cos"] {
+                m.call("elem", op, "inh", Some(6), &[A::R(5)]);
+            }
+        }
+    }
+}
+
+// ------------------------------------------------------------------------------------ C17
+pub fn atrig(m: &mut M, r: &mut Rng, n: u64) {
+    for i in 0..n {
+        m.group("atrig");
+        // asin / acos
+        match r.below(8) {
+            0 => {
+                let b = *r.pick(&[0.5, -0.5, 1.0, -1.0, 0.0, -0.0]);
+                load_sum(m, 0, b, if b.abs() == 1.0 { 0.0 } else { sgn(r) * pow2(-(r.range(54, 100) as i32)) * r.below(2) as f64 });
+            }
+            1 => {
+                let j = r.range(1, 100) as i32;
+                load_sum(m, 0, sgn(r), -sgn(r) * 0.0 + 0.0);
+                let s = sgn(r);
+                load_sum(m, 0, s, -s * pow2(-j));
+            }
+            2 => {
+                let e = r.range(-300, -2) as i32;
+                let h = sgn(r) * log_uniform(r, e, e + 1);
+                load_near(m, r, 0, h);
+            }
+            3 => {
+                let h = sgn(r) * (1.0 + pow2(-(r.range(1, 52) as i32)));
+                load_near(m, r, 0, h); // |x| > 1
+            }
+            _ => {
+                let h = sgn(r) * (r.below(1u64 << 53) as f64) * pow2(-53);
+                load_near(m, r, 0, h);
+            }
+        }
+        m.call("elem", "asin", *r.pick(&SP2), Some(1), &[A::R(0)]);
+        m.call("elem", "acos", *r.pick(&SP2), Some(2), &[A::R(0)]);
+        // atan: every reduction interval, both sides of the breakpoints
+        match r.below(6) {
+            0 | 1 => {
+                let b = *r.pick(&[0.4375, 0.6875, 1.1875, 2.4375, 0.5, 1.0, 1.5]);
+                let u = pow2(exponent(b) - 52);
+                load_sum(m, 3, sgn(r) * b, (r.range(-2, 2) as f64) * u * pow2(-(r.range(0, 53) as i32)));
+            }
+            2 => {
+                let e = r.range(-300, -2) as i32;
+                let h = sgn(r) * log_uniform(r, e, e + 1);
+                load_near(m, r, 3, h);
+            }
+            3 => {
+                let h = sgn(r) * log_uniform(r, 2, 60);
+                load_near(m, r, 3, h);
+            }
+            4 => {
+                m.load(3, if r.coin() { 0.0 } else { -0.0 }, 0.0);
+            }
+            _ => {
+                let h = sgn(r) * log_uniform(r, -2, 2);
+                load_near(m, r, 3, h);
+            }
+        }
+        m.call("elem", "atan", *r.pick(&SP2), Some(4), &[A::R(3)]);
+        // atan2: sign/zero matrix and octants
+        if i % 4 == 0 {
+            let zs = [0.0, -0.0];
+            let y = *r.pick(&zs);
+            let x = *r.pick(&[0.0, -0.0, 1.5, -1.5, 3.0e5, -2.0e-7]);
+            m.load(5, y, 0.0);
+            load_near(m, r, 6, x);
+            m.call("elem", "atan2", *r.pick(&SP2), Some(7), &[A::R(5), A::R(6)]);
+            m.call("elem", "atan2", "inh", Some(7), &[A::R(6), A::R(5)]);
+        } else {
+            let ey = r.range(-30, 29) as i32;
+            let ex = match r.below(3) {
+                0 => ey,
+                1 => r.range(-30, 29) as i32,
+                _ => (ey + r.range(-3, 3) as i32).clamp(-30, 29),
+            };
+            let hy = sgn(r) * log_uniform(r, ey, ey + 1);
+            let hx = sgn(r) * log_uniform(r, ex, ex + 1);
+            load_near(m, r, 5, hy);
+            load_near(m, r, 6, hx);
+            m.call("elem", "atan2", *r.pick(&SP2), Some(7), &[A::R(5), A::R(6)]);
+        }
+    }
+}
+
+// ------------------------------------------------------------------------------------ C18
+pub fn hyp(m: &mut M, r: &mut Rng, n: u64) {
+    for i in 0..n {
+        m.group("hyp");
+        // forward functions: (x, -x) pairs
+        match r.below(6) {
+            0 => {
+                let e = r.range(-40, -1) as i32;
+                let h = log_uniform(r, e, e + 1);
+                load_near(m, r, 0, h);
+            }
+            1 => exp_arg_pos(m, r, 0),
+            2 => {
+                m.load(0, if r.coin() { 0.0 } else { -0.0 }, 0.0);
+            }
+            _ => {
+                let h = log_uniform(r, -3, 10).min(599.0);
+                load_near(m, r, 0, h);
+            }
+        }
+        m.call("arith", "neg", "v", Some(1), &[A::R(0)]);
+        for reg in [0usize, 1] {
+            m.call("elem", "sinh", *r.pick(&SP2), Some(2), &[A::R(reg)]);
+            m.call("elem", "cosh", *r.pick(&SP2), Some(2), &[A::R(reg)]);
+            m.call("elem", "tanh", *r.pick(&SP2), Some(2), &[A::R(reg)]);
+        }
+        // asinh: both signs, up to 2^60
+        match r.below(5) {
+            0 => {
+                let h = *r.pick(&[1e3, 1e8, 1e10, 1e15, 1.152921504606847e18, 1.0, 0.5]);
+                load_near(m, r, 3, h);
+            }
+            1 => {
+                let e = r.range(-40, -1) as i32;
+                let h = log_uniform(r, e, e + 1);
+                load_near(m, r, 3, h);
+            }
+            _ => {
+                let h = log_uniform(r, -2, 60);
+                load_near(m, r, 3, h);
+            }
+        }
+        m.call("arith", "neg", "v", Some(4), &[A::R(3)]);
+        m.call("elem", "asinh", *r.pick(&SP2), Some(5), &[A::R(3)]);
+        m.call("elem", "asinh", *r.pick(&SP2), Some(5), &[A::R(4)]);
+        // acosh: 1 + 2^-j, generic, below 1
+        match r.below(5) {
+            0 => {
+                let j = r.range(1, 58) as i32;
+                load_sum(m, 6, 1.0, pow2(-j) * (1.0 + r.below(8) as f64 / 8.0));
+            }
+            1 => {
+                m.load(6, *r.pick(&[1.0, 0.5, 0.0, -2.0]), 0.0);
+            }
+            _ => {
+                let h = log_uniform(r, 0, 60);
+                load_near(m, r, 6, h);
+            }
+        }
+        m.call("elem", "acosh", *r.pick(&SP2), Some(7), &[A::R(6)]);
+        // atanh: +-(1 - 2^-j), j <= 10, generic, |x| >= 1
+        match r.below(5) {
+            0 => {
+                let j = r.range(1, 10) as i32;
+                let s = sgn(r);
+                load_sum(m, 6, s, -s * pow2(-j));
+            }
+            1 => {
+                m.load(6, *r.pick(&[1.0, -1.0, 1.5, 0.0, -0.0]), 0.0);
+            }
+            2 => {
+                let e = r.range(-40, -1) as i32;
+                let h = sgn(r) * log_uniform(r, e, e + 1);
+                load_near(m, r, 6, h);
+            }
+            _ => {
+                let h = sgn(r) * (r.below(1u64 << 53) as f64) * pow2(-53) * 0.999;
+                load_near(m, r, 6, h);
+            }
+        }
+        m.call("elem", "atanh", *r.pick(&SP2), Some(7), &[A::R(6)]);
+        let _ = i;
+    }
+}
+
+fn exp_arg_pos(m: &mut M, r: &mut Rng, d: usize) {
+    // odd quarters with the low word pointing away (the exp reduction boundary), positive
+    let q = (2 * r.range(0, 2300) + 1) as f64 / 4.0;
+    let ulp = pow2(exponent(q) - 52);
+    load_sum(m, d, q, -ulp * *r.pick(&[0.375, 0.25, 0.125]));
+}
+
+// ------------------------------------------------------------------------------------ C12
+pub fn angles(m: &mut M, r: &mut Rng, n: u64) {
+    m.group("consts");
+    consts(m);
+    // NAN != NAN, INFINITY not valid
+    m.call("const", "const", "assoc", Some(0), &[A::S("NAN".into())]);
+    for op in ["eq", "ne", "pcmp"] {
+        m.call("base", op, "op", None, &[A::R(0), A::R(0)]);
+    }
+    for c in ["INFINITY", "NEG_INFINITY", "MAX", "MIN", "MIN_POSITIVE"] {
+        m.call("const", "const", "assoc", Some(1), &[A::S(c.into())]);
+        m.call("base", "is_valid", "inh", None, &[A::R(1)]);
+    }
+    for i in 0..n {
+        m.group("angle");
+        match r.below(5) {
+            0 => {
+                let k = *r.pick(&[90.0, 180.0, 360.0, 45.0, 1.0, 57.29577951308232, 0.017453292519943295]);
+                let s1 = sgn(r);
+                load_near(m, r, 0, k * s1);
+            }
+            1 => {
+                m.load(0, if r.coin() { 0.0 } else { -0.0 }, 0.0);
+            }
+            _ => load_valid(m, r, 0, -449, 449),
+        }
+        let sp = if i % 3 == 0 { *r.pick(&["inh", "Float", "FloatCore"]) } else { "inh" };
+        m.call("misc", "to_degrees", sp, Some(1), &[A::R(0)]);
+        m.call("misc", "to_radians", sp, Some(2), &[A::R(0)]);
+    }
+    let _ = SP_TT;
+}
+
+pub fn run(m: &mut M, r: &mut Rng, family: &str, n: u64) -> bool {
+    match family {
+        "roots" => roots(m, r, n),
+        "powi" => powi(m, r, n),
+        "exps" => exps(m, r, n),
+        "logs" => logs(m, r, n),
+        "trig" => trig(m, r, n),
+        "atrig" => atrig(m, r, n),
+        "hyp" => hyp(m, r, n),
+        "angles" => angles(m, r, n),
+        _ => return crate::gen4::run(m, r, family, n),
+    }
+    true
 }
